@@ -844,6 +844,22 @@ fn run(name: &str, j: &J) -> Result<bool, String> {
             }
             Ok(true)
         }
+        // C05: all the API-level oracles of the property, one after the other
+        "c05_any_search" => {
+            if !run("c05_path_search", j)? { return Ok(false); }
+            for op in ["inner", "left_outer", "full_outer", "cross"] {
+                let w = serde_json::json!({"op": op});
+                if !run("c05_tracked_join_equates_units", &w)? { println!("QX-WITNESS {}", w); return Ok(false); }
+            }
+            for kind in ["INNER", "LEFT", "RIGHT", "FULL"] {
+                let w = serde_json::json!({"join": kind});
+                if !run("c05_tracked_outer_join_unit", &w)? { println!("QX-WITNESS {}", w); return Ok(false); }
+            }
+            Ok(true)
+        }
+        "c05_any_case" => {
+            if j.get("steps").is_some() { run("c05_path_hops", j) } else if j.get("join").is_some() { run("c05_tracked_outer_join_unit", j) } else { run("c05_tracked_join_equates_units", j) }
+        }
         _ => Err(format!("unknown replay `{}`", name)),
     }
 }
